@@ -43,7 +43,8 @@ def required_cells(tier):
     cells += ['wrapper:google', 'wrapper:freeform', 'indent:tabs', 'indent:0', 'indent:4', 'indent:8',
               'coroutine-part', 'want-placed', 'multi-part', 'unprefixed-string-line', 'comment-only-skipped',
               'verbose:0', 'verbose:3', 'reindent-after-want:less', 'reindent-after-want:more',
-              'reindent-after-separator', 'hosted-in-module', 'module-globals-rebound', 'mixed-tabs-and-blanks', 'expected-exception', 'whitespace-only-separator']
+              'reindent-after-separator', 'hosted-in-module', 'module-globals-rebound', 'mixed-tabs-and-blanks', 'expected-exception', 'whitespace-only-separator',
+              'blanks-only-continuation-line']
     return cells
 
 
@@ -132,7 +133,8 @@ def _check_layout(ctx, case, stmts, ref, rng, layout, doc, info, verbose, only_c
         if hosted[2]:
             ctx.cell('module-globals-rebound')
     for f in info['features']:
-        if f.startswith('reindent') or f in ('mixed-tabs-and-blanks', 'expected-exception', 'whitespace-only-separator'):
+        if f.startswith('reindent') or f in ('mixed-tabs-and-blanks', 'expected-exception', 'whitespace-only-separator',
+                                              'blanks-only-continuation-line'):
             ctx.cell(f)
     if info['unprefixed']:
         ctx.cell('unprefixed-string-line')
